@@ -158,42 +158,21 @@ def _one_euclidean_gen_sets(v_1: list, C_set_plus: set, C_set_minus: set):
         (list, list, int): tuple containing the sets F and G, and the number of
         sets in F (k).
     """
-    f, g = dict(), dict()
-    ind = 0
+    # F_1, G_1, F_2, G_2, ...: the maximal runs of coloured (C_set_plus) and of grey
+    # (C_set_minus) alternatives in the order of the first voter; the top of the first
+    # voter is coloured, hence the first run is F_1
+    f, g = [], []
+    for c in v_1:
+        if c in C_set_plus:
+            if len(f) == len(g):
+                f.append(set())
+            f[-1].add(c)
+        else:
+            if len(g) < len(f):
+                g.append([])
+            g[-1].append(c)
 
-    # if C_set_minus is empty
-    if not C_set_minus:
-        return [C_set_plus], [], 1
-
-    while C_set_minus and C_set_plus:
-        tmp = None
-        while C_set_plus:
-            a = C_set_plus.pop()
-
-            for b in C_set_minus:
-                if v_1.index(a) > v_1.index(b):
-                    if tmp is None:
-                        ind += 1
-                    tmp = b
-
-                    if not ind in f:
-                        f[ind] = set()
-                    f[ind].add(a)
-                else:
-                    if not ind in f:
-                        f[ind] = set()
-                    f[ind].add(a)
-
-        if tmp is not None:
-            C_set_minus.remove(tmp)
-            if not ind in g:
-                g[ind] = set()
-            g[ind].add(tmp)
-
-        ind += 1
-        g[ind] = C_set_minus
-
-    return list(f.values()), list(g.values()), len(f)
+    return f, g, len(f)
 
 
 def is_one_euclidean(instance: OrdinalInstance):
@@ -368,17 +347,18 @@ def is_one_euclidean(instance: OrdinalInstance):
                 for i, tmp in enumerate(sorted(g[0], key=v_1.index)):
                     y[tmp + n - 1] = x_r + 6 * delta + (i / m) * delta
 
+            # every voter is at distance <= delta from F_1, in [6, 8) * delta from G_1,
+            # in (8 * i, 8 * i + 1] * delta from F_{i+1} and in [8 * i + 6, 8 * i + 8) * delta from G_{i+1}
             for i in range(1, k):
                 for c in f[i]:
                     if alternatives[c] < x_l:
-                        y[c + n - 1] = alternatives[c] - ((i + 1) ** 2) * delta
-                    if alternatives[c] > x_r:
-                        y[c + n - 1] = alternatives[c] + ((i + 1) ** 2) * delta
+                        y[c + n - 1] = alternatives[c] - 8 * i * delta
+                    else:
+                        y[c + n - 1] = alternatives[c] + 8 * i * delta
 
-                for l in range(len(g[i])):
-                    y[g[i].pop() + n - 1] = (
-                        x_r + ((i + 1) ** 2) * delta + 2 * delta + l / m * delta
-                    )
+                if i < len(g):
+                    for l, c in enumerate(g[i]):
+                        y[c + n - 1] = x_r + (8 * i + 6) * delta + l / m * delta
 
             return True, y
 
